@@ -64,6 +64,11 @@ def int_pool(tier, rng):
             p.Comparison(p.BitwiseAnd((a, b)), "==", c), p.BitwiseAnd((a, p.Comparison(b, "==", c))), p.Comparison(a, "<", p.BitwiseOr((b, c))),
             p.Comparison(p.BitwiseXor((a, 1)), "!=", p.BitwiseXor((b, 1))), p.If(p.Comparison(p.BitwiseAnd((a, 1)), "==", 1), b, c)]
     out += bits
+    # sign factors in every position of a term of a sum, none, one, two or three of them (the C printer turns a leading -1 into a subtraction)
+    for fs in ((-1, b), (b, -1), (-1, b, -1), (-1, -1, b), (b, -1, -1), (-1, b, -1, c), (-1, -1, -1, b), (-1, -1), (-1,), (-1, b, c, -1), (b, -1, c), (-1, p.Sum((b, p.Product((c, -1))))),
+               (-1, p.Product((-1, b))), (p.Product((-1, b)), -1), (-2, b), (-1, 1, b), (1, -1, b)):
+        t = p.Product(fs)
+        out += [p.Sum((a, t)), p.Sum((t, a)), p.Sum((t, t)), p.Sum((a, t, 7)), p.Product((a, t)), p.Sum((a, p.Product((2, t))))]
     return out
 
 
